@@ -3,6 +3,7 @@
 package main
 
 import (
+	"bytes"
 	"sync/atomic"
 	"context"
 	"fmt"
@@ -480,6 +481,30 @@ func runC02(e *Env) {
 			}
 		}
 	}
+	// The sender's root in ScanPaths mode is "."; a lookup that does not go
+	// through the path resolver ends up below the working directory. Decoy
+	// files with other bytes wait there under the names of the manifest, so
+	// that a transfer that reads them instead of the hosted tree shows as
+	// success with wrong content.
+	if abs, err := filepath.Abs(e.Work); err == nil {
+		for _, w := range wls {
+			for _, en := range w.Tree.Entries {
+				if en.Dir || en.Link != "" {
+					continue
+				}
+				p := filepath.Join(abs, "srcroot", filepath.FromSlash(en.Rel))
+				if st, err := os.Stat(p); err == nil && st.Size() >= en.Size+10 {
+					continue
+				}
+				_ = os.MkdirAll(filepath.Dir(p), 0755)
+				_ = os.WriteFile(p, bytes.Repeat([]byte{0xD5}, int(en.Size)+10), 0644)
+			}
+		}
+		if old, err := os.Getwd(); err == nil && os.Chdir(abs) == nil {
+			defer os.Chdir(old)
+			e.R.SetExtra("decoy_tree_in_working_directory", filepath.Join(abs, "srcroot"))
+		}
+	}
 	r := vk.NewRng(e.Seed ^ vk.HashStr("c02"+e.Tier))
 	// recording runs
 	for _, w := range wls {
@@ -702,6 +727,16 @@ func runC02(e *Env) {
 			}
 			o := runC02Case(e, lp, byName[c.W], c)
 			e.R.Eval()
+			if o.Res.Hung && o.Res.Inconclusive == "" && o.Setup == "" {
+				// a stall that the fault causes shows again on a fresh pair of
+				// connections; one caused by datagram loss and retransmission
+				// back-off on the loaded machine does not
+				if o2 := runC02Case(e, lp, byName[c.W], c); !o2.Res.Hung {
+					e.R.Count("hang_not_reproduced")
+					e.R.Inconcl(fmt.Sprintf("%s (%s, %s, gate %s): the bounded-progress rule fired once, and the same case run again on fresh connections did not stall", c.ID, c.W, cls, c.Gate))
+					return
+				}
+			}
 			if o.Res.Hung {
 				smu.Lock()
 				hangsByClass[cls]++
